@@ -15,7 +15,7 @@ C09.codec  attribute values that are definitely not strings (int / None) and dat
 """
 import ast
 
-from ..absint import (Interp, Node, Obj, NeedAtom, Budget, _Raise, enumerate_cells, deps_of, show, flat_effects, OTHER, C_NONE)
+from ..absint import (Interp, Node, Obj, NeedAtom, Budget, DomainGrew, _Raise, enumerate_cells, deps_of, show, flat_effects, OTHER, C_NONE)
 from ..report import where
 from ..repo import unparse
 
@@ -398,6 +398,50 @@ def rule_classes(ctx, only=None):
     ctx.units["C09.not_analysed"] = not_analysed
 
 
+def rule_helper(ctx):
+    """the helper every serialiser builds its node with (ProtocolEntity._createProtocolTreeNode), executed on concrete
+    attribute dictionaries: every attribute whose value is a string - the empty string and "0" included - arrives in the
+    node with that value, under the entity's tag; children and data are handed on"""
+    repo = ctx.repo
+    base = repo.cls("yowsup/structs/protocolentity.py", "ProtocolEntity")
+    k, fn = repo.find_method(base, "_createProtocolTreeNode")
+    w = where(base.relpath, "ProtocolEntity._createProtocolTreeNode", getattr(fn, "lineno", None))
+    if fn is None:
+        ctx.undecided("C09.kept", w, "node construction helper", "ProtocolEntity._createProtocolTreeNode not found")
+        return
+    from ..absint import Obj
+    given = {"text": "hello", "empty": "", "zero": "0", "id": "ID-1"}
+    bad = []
+    try:
+        it = Interp(repo, {}, {})
+        o = Obj(base)
+        o.fields["tag"] = ("c", "probe")
+        child = Node(("c", "child"), None)
+        for args in ([("dict", {k_: ("c", v_) for k_, v_ in given.items()}), C_NONE, C_NONE],
+                     [("dict", {k_: ("c", v_) for k_, v_ in given.items()}), ("list", [("node", child)]), ("c", b"")],
+                     [("dict", {k_: ("c", v_) for k_, v_ in given.items()}), C_NONE, ("c", b"DATA")]):
+            r = it.force(it.method_call(("obj", o), "_createProtocolTreeNode", list(args), {}, {"@module": base.module, "@owner": base}, 0, None))
+            if r[0] != "node":
+                bad.append("returns %s, not a node" % show(r)[:40])
+                continue
+            n = r[1]
+            if n.tag != ("c", "probe"):
+                bad.append("the node's tag is %s, not the entity's" % show(n.tag)[:30])
+            for k_, v_ in given.items():
+                got = n.attrs.get(k_)
+                if got != ("c", v_):
+                    bad.append("attribute %s=%r arrives as %s" % (k_, v_, "nothing (left out)" if got is None else show(got)[:30]))
+            if args[1] != C_NONE and not any(isinstance(c_, Node) and c_ is child for _k, c_ in n.children):
+                bad.append("the children handed in do not arrive in the node")
+            if args[2] != C_NONE and args[2][1] and n.data != args[2]:
+                bad.append("the data handed in does not arrive in the node (%s)" % show(n.data)[:30])
+    except (_Raise, NeedAtom, Budget, DomainGrew) as x:
+        ctx.undecided("C09.kept", w, "node construction helper", "could not be executed: %s" % (getattr(x, "text", None) or x,))
+        return
+    ctx.check("C09.kept", not bad, w, "every attribute handed to the helper arrives in the node ('' and '0' included)",
+              "; ".join(sorted(set(bad))[:3]) + " - every entity serialised through the helper loses that field", "attributes, children and data handed on unchanged")
+
+
 def run(ctx):
     ctx.rule("C09.wire", "the codec the stanzas pass through is a round trip (C01.int/class/tags/dbl/pack/unpack adopted)", floor=40)
     ctx.rule("C09.payload", "the payload converter message entities are parsed and re-serialised through is a bijection (C10.bij/has/top adopted)", floor=100)
@@ -410,6 +454,7 @@ def run(ctx):
     ctx.rule("C09.codec", "definite non-string attribute values / str data in entities the stack sends", floor=40)
     ctx.assume("numeric normalisation and boolean flags are provenance-preserving conversions; value-level equality is not decided")
     ctx.guarded("C09.classes", rule_classes, ctx)
+    ctx.guarded("C09.kept", rule_helper, ctx)
     repo = ctx.repo
     ctx.guarded("C09.codec_sent", rule_codec_sent, ctx, repo)
 
